@@ -345,7 +345,9 @@ def run(ctx):
                 "+ module-level compiled objects) is translated to an NFA and TLC decides exponential ambiguity on the product "
                 "automaton (RegexAmbiguity.tla); every public validator/parser is timed in a killable child process on the pumped "
                 "families prefix + pump^n + suffix built from the patterns' own atoms (single atoms, atom pairs and TLC's pump words): "
-                "short inputs must finish, and doubling n may multiply the time by at most 2^5.5. non-trivial = distinct (entry point, input)")
+                "short inputs must finish, and doubling n may multiply the time by at most 2^5.5; patterns built at run time from document text are found by "
+                "loading sample documents of every format with a marker pattern at each text position while `re` is observed, and then "
+                "timed with the document choosing an ambiguous pattern and its pump. non-trivial = distinct (entry point, input)")
     ctx.assumptions += ["the NFA translation ignores anchors and back-references (none used); its agreement with `re` is validated on all words <= 4",
                         "wall-clock thresholds are growth factors, generous enough for a loaded machine"]
     pats = {}
@@ -474,6 +476,14 @@ def run(ctx):
     ctx.evaluations += total
     ctx.distinct_count += 0
     ctx.traces += total
+    # patterns that are not in the source: built at run time from the text of the document being read
+    from . import regex_injection
+    viol, stats = regex_injection.evaluate(CAP)
+    for case, why in viol:
+        ctx.fail(case, why, "injection")
+    ctx.notes["injection"] = {k: (v if not isinstance(v, list) else v[:20]) for k, v in stats.items()}
+    ctx.evaluations += stats["positions"] + stats["pump_loads"]
+    ctx.traces += stats["positions"] + stats["pump_loads"]
     ctx.sample({"kind": "pattern", "pattern": plist[0], "nfa_states": models[0]["nstates"], "edges": len(models[0]["edges"])})
     ctx.sample({"kind": "timed-call", "entry": eps[0], "input": "a" * 16 + "!"})
     for i, (piv, word) in eda.items():
@@ -483,6 +493,9 @@ def run(ctx):
 
 def replay(info):
     c = info["case"]
+    if info["kind"] == "injection":
+        from . import regex_injection
+        return regex_injection.replay(c, CAP)
     t = Timer()
     try:
         if info["kind"] == "stall":
